@@ -347,6 +347,15 @@ func (w *c15World) progress() bool {
 // nobody is going to call Watch any more: go on with the watchers that exist -
 // events of an unwatched key reach nobody and the oracle decides.
 func (w *c15World) waitWatches(n int, what string) bool {
+	ok := w.waitWatchCalls(n, what)
+	if bad := w.etcd.takeBadWatches(); len(bad) > 0 && !w.failed {
+		w.violate("C15:watch:start-revision", "%s: %s", what, strings.Join(bad, "; "))
+		return false
+	}
+	return ok
+}
+
+func (w *c15World) waitWatchCalls(n int, what string) bool {
 	idleRuns := 0
 	ok := vk.WaitUntil(c15Watchdog, func() bool {
 		if w.etcd.watchCount() >= n {
@@ -373,8 +382,9 @@ func (w *c15World) waitWatches(n int, what string) bool {
 
 // syncSvc: the model of a snapshot load for one service key: the subscribers
 // are told the difference between what the cluster knew and the snapshot.
-func (w *c15World) syncSvc(svc string) {
-	snap := w.etcd.snapshot(svc)
+func (w *c15World) syncSvc(svc string) { w.syncSvcWith(svc, w.etcd.snapshot(svc)) }
+
+func (w *c15World) syncSvcWith(svc string, snap map[string]string) {
 	kn := w.known[svc]
 	groups := map[string][]string{}
 	for k, v := range snap {
